@@ -74,7 +74,9 @@ func zzRunnerLocks(prop string) {
 	// the outside holder has q for writing before anything is submitted
 	outside := sm.Lock(commservices.LockMap{"q": commservices.LockRW})
 	nd.Assert(r.Run(mk(0, nil)) == nil, prop+"/runner-accepts")
-	nd.Assert(r.Run(mk(1, []string{"t0"})) == nil, prop+"/runner-accepts")
+	// (the second submission may be refused only because the first task has
+	// failed the scope in the meantime: a scope that is done refuses new tasks)
+	nd.Assert(r.Run(mk(1, []string{"t0"})) == nil || t0Fails, prop+"/runner-accepts")
 	var wg sync.WaitGroup
 	wg.Add(1)
 	go func() {
